@@ -315,5 +315,58 @@ fn e_canary_must_fail() {
     forget(r);
 }
 
+// --------------------------------------------------------------------------------------------
+// E-unary: eval_unary_op (evaluator/expressions/operators.rs, shared by both evaluators)
+// NOT is Kleene negation on {T,F,NULL} and, on numbers, TRUE exactly for the values WHERE treats as false;
+// unary minus on exact numerics is the exact negation or an explicit error (never a wrapped value, never a panic); unary plus is the identity.
+// --------------------------------------------------------------------------------------------
+use crate::evaluator::expressions::operators::eval_unary_op;
+use vibesql_ast::UnaryOperator as UOp;
+
+#[kani::proof]
+#[kani::stub(alloc::fmt::format, fmt_stub)]
+fn e_unary_not_kleene_and_numeric() {
+    let k: u8 = kani::any(); kani::assume(k < 3);
+    let r = eval_unary_op(&UOp::Not, &tv(k));
+    assert!(is_tv(&r, if k == 2 { 2 } else { 1 - k }), "E-unary#kleene_not");
+    forget(r);
+    let i: i64 = kani::any();
+    let r = eval_unary_op(&UOp::Not, &SqlValue::Integer(i));
+    assert!(matches!(r, Ok(SqlValue::Boolean(b)) if b == (i == 0)), "E-unary#not_numeric_is_true_iff_falsy");
+    forget(r);
+    let f: f64 = kani::any();
+    let r = eval_unary_op(&UOp::Not, &SqlValue::Double(f));
+    assert!(matches!(r, Ok(SqlValue::Boolean(b)) if b == !(f != 0.0)), "E-unary#not_numeric_is_true_iff_falsy");
+    forget(r);
+}
+#[kani::proof]
+#[kani::stub(alloc::fmt::format, fmt_stub)]
+fn e_unary_minus_exact_or_error() {
+    let i: i64 = kani::any();
+    let r = eval_unary_op(&UOp::Minus, &SqlValue::Integer(i));
+    match &r { Ok(SqlValue::Integer(x)) => assert!((*x as i128) == -(i as i128), "E-unary#minus_exact"), Err(_) => assert!(i == i64::MIN, "E-unary#minus_error_only_at_min"), _ => assert!(false, "E-unary#minus_type") }
+    forget(r);
+    let b: i64 = kani::any();
+    let r = eval_unary_op(&UOp::Minus, &SqlValue::Bigint(b));
+    match &r { Ok(SqlValue::Bigint(x)) => assert!((*x as i128) == -(b as i128), "E-unary#minus_exact"), Err(_) => assert!(b == i64::MIN, "E-unary#minus_error_only_at_min"), _ => assert!(false, "E-unary#minus_type") }
+    forget(r);
+    let s: i16 = kani::any();
+    let r = eval_unary_op(&UOp::Minus, &SqlValue::Smallint(s));
+    match &r { Ok(SqlValue::Smallint(x)) => assert!((*x as i128) == -(s as i128), "E-unary#minus_exact"), Err(_) => assert!(s == i16::MIN, "E-unary#minus_error_only_at_min"), _ => assert!(false, "E-unary#minus_type") }
+    forget(r);
+    let r = eval_unary_op(&UOp::Minus, &SqlValue::Null);
+    assert!(matches!(r, Ok(SqlValue::Null)), "E-unary#null_propagates"); forget(r);
+}
+#[kani::proof]
+#[kani::stub(alloc::fmt::format, fmt_stub)]
+fn e_unary_plus_identity() {
+    let i: i64 = kani::any();
+    let r = eval_unary_op(&UOp::Plus, &SqlValue::Integer(i));
+    assert!(matches!(r, Ok(SqlValue::Integer(x)) if x == i), "E-unary#plus_identity"); forget(r);
+    let f: f64 = kani::any();
+    let r = eval_unary_op(&UOp::Plus, &SqlValue::Double(f));
+    assert!(matches!(r, Ok(SqlValue::Double(x)) if x.to_bits() == f.to_bits()), "E-unary#plus_identity"); forget(r);
+}
+
 // concrete-playback replay slot (see lib/kani_run.py: replay); empty except while a counterexample is being replayed
 include!("ops.playback.rs");
